@@ -188,7 +188,14 @@ pub fn run_case<K: KeyLike>(case: &Case, prop: Prop, keep_trace: bool) -> CaseRe
     let blocks0 = alloc::live_blocks();
     {
         let keys = case_keys(case);
+        // W-TinyLFU: a third of the cases get byte buffers that are not word aligned (legal for
+        // align-1 allocations): estimator rows / doorkeeper must not depend on their address
+        if kind == Kind::Wtl {
+            let seed = case.cfg.sketch_seed.unwrap_or(1);
+            alloc::set_misalign(if seed % 3 == 0 { 1 + (seed / 3 % 7) as u8 } else { 8 });
+        }
         let r = run_inner::<K>(case, prop, keep_trace, &keys, &mut rep);
+        alloc::set_misalign(8);
         if let Err(v) = r {
             rep.violation = Some(v);
         }
